@@ -276,14 +276,21 @@ func (j *joiner) processChunkAddresses(ctx context.Context, fn boson.AddressIter
 
 		address := boson.NewAddress(data[cursor : cursor+j.refLength])
 
-		if err := fn(address); err != nil {
+		// an encrypted reference is the chunk address followed by the decryption key:
+		// chunks are reported and listed by their address only
+		reportAddr := address
+		if j.refLength > boson.HashSize {
+			reportAddr = boson.NewAddress(data[cursor : cursor+boson.HashSize])
+		}
+
+		if err := fn(reportAddr); err != nil {
 			return err
 		}
 
 		sec := subtrieSection(data, cursor, j.refLength, subTrieSize)
 		if sec <= boson.ChunkSize {
 			if j.allowSaveData {
-				j.dataChunks = append(j.dataChunks, address.Bytes())
+				j.dataChunks = append(j.dataChunks, reportAddr.Bytes())
 			}
 			continue
 		}
